@@ -314,7 +314,11 @@ pub struct Ev {
 
 static LOG: Mutex<Vec<Ev>> = Mutex::new(Vec::new());
 
+/// scheduler step at which the latest event was logged (livelock detection)
+pub static LAST_LOG_STEP: std::sync::atomic::AtomicU64 = std::sync::atomic::AtomicU64::new(0);
+
 pub fn log(kind: EvKind) {
+    LAST_LOG_STEP.store(rt::STEPS.load(Ordering::SeqCst), Ordering::SeqCst);
     let seq = rt::next_seq();
     let now = rt::now_ns().unwrap_or(0);
     let task = rt::current_task_name();
@@ -477,9 +481,21 @@ pub fn bo<F: std::future::Future>(f: F) -> F::Output {
     }
 }
 
+thread_local! {
+    /// what the current client does while it holds its next reference (Op::WhileHolding)
+    static HOLD_ACTION: std::cell::RefCell<Option<Box<dyn FnOnce()>>> = std::cell::RefCell::new(None);
+}
+
 fn hold_points(n: u32) {
     for _ in 0..n {
         rt::yield_now();
+    }
+    let act = HOLD_ACTION.with(|a| a.borrow_mut().take());
+    if let Some(f) = act {
+        f();
+        for _ in 0..n {
+            rt::yield_now();
+        }
     }
 }
 
@@ -986,8 +1002,16 @@ pub fn do_op(api: &dyn Api, client: usize, idx: usize, op: &Op) {
             Ok(()) => Res::Unit,
             Err(e) => Res::Err(e),
         },
-        Op::Get { k, hold } => Res::Got(api.get(*k, *hold)),
-        Op::GetMut { k, hold, .. } => Res::GotMut(api.get_mut(*k, val, *hold)),
+        Op::Get { k, hold } => {
+            let r = api.get(*k, *hold);
+            HOLD_ACTION.with(|h| h.borrow_mut().take());
+            Res::Got(r)
+        }
+        Op::GetMut { k, hold, .. } => {
+            let r = api.get_mut(*k, val, *hold);
+            HOLD_ACTION.with(|h| h.borrow_mut().take());
+            Res::GotMut(r)
+        }
         Op::GetTtl { k } => Res::Ttl(api.get_ttl(*k)),
         Op::Len => Res::Num(api.len() as i64),
         Op::Wait => match api.wait() {
@@ -1029,6 +1053,20 @@ pub fn do_op(api: &dyn Api, client: usize, idx: usize, op: &Op) {
         }
         Op::StallSelf { ns, skip } => {
             rt::stall_self_later(*ns, *skip);
+            Res::Unit
+        }
+        Op::WhileHolding { what, v } => {
+            let a = api.clone_box();
+            let (what, v) = (*what, *v);
+            let f: Box<dyn FnOnce()> = Box::new(move || {
+                let inner = match what {
+                    0 => Op::Close,
+                    1 => Op::MaxCost,
+                    _ => Op::UpdateMaxCost { v },
+                };
+                do_op(a.as_ref(), client, idx + 50_000, &inner);
+            });
+            HOLD_ACTION.with(|h| *h.borrow_mut() = Some(f));
             Res::Unit
         }
         Op::Barrier | Op::DropHandle => Res::Unit,
